@@ -97,6 +97,7 @@ def conc_scenarios():
     if _opt("execgen_set", "set_cmd"):
         sc.append("set")
     sc.append("bigread")
+    sc += ["addrem", "keysstable", "streamtrim"]
     return sc
 
 
